@@ -129,11 +129,17 @@ pub struct Capabilities {
 }
 
 /// Number of shell-facing variants (the menu).
-pub const MENU: usize = 14;
+pub const MENU: usize = 16;
 pub const MENU_NAMES: [&str; MENU] = [
     "Single", "Two", "Sub", "Chain", "Render", "Timer", "LTimer", "Kv", "Http", "Legacy", "Quiet",
-    "FailTwo", "FailOne", "FussyView",
+    "FailTwo", "FailOne", "FussyView", "TwoQuiet", "ThreeQuiet",
 ];
+
+/// Render-free menu: no event of it (and no continuation) ever renders or notifies, so the
+/// bridge's registry never holds a `Never` entry in histories made of these events only.
+pub fn render_free_menu() -> Vec<usize> {
+    vec![14, 15, 0, 10]
+}
 
 /// The ten effectful menu events (the main explorations); `Quiet` (index 10) joins the
 /// reduced-menu deep run of C09.
@@ -177,6 +183,10 @@ pub enum Event {
     FailOne,
     /// toggles a model state whose VIEW cannot be serialized (no effect)
     FussyView,
+    /// two parallel one-shot requests, no render, continuations only log
+    TwoQuiet,
+    /// three parallel one-shot requests, no render, continuations only log
+    ThreeQuiet,
     /// burst(n): n one-shot requests at once, each continuation folds (question, answer) into
     /// the view. Not part of the explored menus: used by C09's scripted scale family.
     Burst(u16),
@@ -220,6 +230,8 @@ pub fn menu_event(i: usize) -> Event {
         11 => Event::FailTwo,
         12 => Event::FailOne,
         13 => Event::FussyView,
+        14 => Event::TwoQuiet,
+        15 => Event::ThreeQuiet,
         _ => panic!("no such menu event"),
     }
 }
@@ -377,6 +389,15 @@ impl crux_core::App for App {
                     .wrapping_add((u64::from(q) << 16) | u64::from(out.0));
                 Command::done()
             }
+            Event::TwoQuiet => Command::all([
+                Command::request_from_shell(TinyOp::Ask(10)).then_send(|o| Event::Got(10, o)),
+                Command::request_from_shell(TinyOp::Ask(11)).then_send(|o| Event::Got(11, o)),
+            ]),
+            Event::ThreeQuiet => Command::all([
+                Command::request_from_shell(TinyOp::Ask(12)).then_send(|o| Event::Got(12, o)),
+                Command::request_from_shell(TinyOp::Ask(13)).then_send(|o| Event::Got(13, o)),
+                Command::request_from_shell(TinyOp::Ask(14)).then_send(|o| Event::Got(14, o)),
+            ]),
             Event::FailTwo => Command::all([
                 Command::request_from_shell(TinyOp::Ask(8)).then_send(|o| Event::Got(8, o)),
                 Command::request_from_shell(TinyOp::Weird(Fussy(FUSSY_MARKER)))
